@@ -72,7 +72,7 @@ VARIABLES now, roots, ns, supply, bal, idx, rec, soa, ev
 store == <<roots, ns, supply, bal, idx, rec, soa>>
 vars  == <<now, roots, ns, supply, bal, idx, rec, soa, ev>>
 
-NoName == [ex |-> FALSE, owner |-> Nil, admin |-> Nil, exp |-> 0]
+NoName == [ex |-> FALSE, owner |-> Nil, admin |-> Nil, exp |-> 0, ob |-> FALSE]
 NoSoa  == [ex |-> FALSE, mail |-> Nil, serial |-> 0, e |-> 0]
 
 NoNtf == <<>>
@@ -141,7 +141,7 @@ RegisterTLD(S, via, n, m, x) ==
      /\ Level(n) = 1
      /\ ~(n \in roots /\ AliveIn(ns, now, n))
   THEN /\ roots' = roots \cup {n}
-       /\ ns' = [ns EXCEPT ![n] = [ex |-> TRUE, owner |-> Nil, admin |-> Nil, exp |-> now + x]]
+       /\ ns' = [ns EXCEPT ![n] = [ex |-> TRUE, owner |-> Nil, admin |-> Nil, exp |-> now + x, ob |-> FALSE]]
        /\ soa' = [soa EXCEPT ![n] = [ex |-> TRUE, mail |-> m, serial |-> now, e |-> x]]
        /\ now' = now + 1 /\ UNCHANGED <<supply, bal, idx, rec>>
        /\ Halt("registerTLD", S, via, n, Nil, m, x, Nil, Nil, "null", 0, NoNtf)
@@ -163,7 +163,7 @@ Register(S, via, n, o, m, x) ==
                 b1  == IF ns[n].ex THEN Dec(bal, old) ELSE bal
                 i1  == IF ns[n].ex THEN idx \ {<<old, n>>} ELSE idx
             IN  /\ supply' = IF ns[n].ex THEN supply ELSE supply + 1
-                /\ ns' = [ns EXCEPT ![n] = [ex |-> TRUE, owner |-> o, admin |-> Nil, exp |-> now + x]]
+                /\ ns' = [ns EXCEPT ![n] = [ex |-> TRUE, owner |-> o, admin |-> Nil, exp |-> now + x, ob |-> FALSE]]
                 /\ soa' = [soa EXCEPT ![n] = [ex |-> TRUE, mail |-> m, serial |-> now, e |-> x]]
                 /\ bal' = Inc(b1, o)
                 /\ idx' = i1 \cup {<<o, n>>}
@@ -175,7 +175,10 @@ Register(S, via, n, o, m, x) ==
 \* Transfer(to, tokenID, data): no parent check, only the name's own expiration.  `data` is only handed on to
 \* onNEP11Payment.  enc = "buf" when the receiver hash arrives as a Buffer stack item: util.Equals(from, to)
 \* compares a Buffer by reference, so a self-transfer then takes the path of a transfer to somebody else
-\* (admin cleared, balance and index rewritten with the same values).
+\* (admin cleared, balance and index rewritten with the same values).  The item type survives in the
+\* storage: std.Serialize keeps a Buffer owner a Buffer (ns[n].ob), so after a transfer with a Buffer
+\* receiver every later self-transfer of the name - also one with a ByteString receiver - compares
+\* unequal, until the owner is stored again from a ByteString (transfer, re-registration).
 Encs == {Nil, "buf"}
 Transfer(S, via, n, o, enc) ==
   LET W == Wit(S, via) IN
@@ -184,8 +187,8 @@ Transfer(S, via, n, o, enc) ==
        IF from \notin W
        THEN /\ now' = now + 1 /\ UNCHANGED <<roots, ns, supply, bal, idx, rec, soa>>
             /\ Halt("transfer", S, via, n, o, Nil, 0, Nil, enc, "false", 0, NoNtf)
-       ELSE /\ IF from # o \/ enc = "buf"
-               THEN /\ ns' = [ns EXCEPT ![n].owner = o, ![n].admin = Nil]
+       ELSE /\ IF from # o \/ enc = "buf" \/ ns[n].ob
+               THEN /\ ns' = [ns EXCEPT ![n].owner = o, ![n].admin = Nil, ![n].ob = (enc = "buf")]
                     /\ bal' = Inc(Dec(bal, from), o)
                     /\ idx' = (idx \ {<<from, n>>}) \cup {<<o, n>>}
                ELSE UNCHANGED <<ns, bal, idx>>
@@ -296,7 +299,7 @@ DeleteRecords(S, via, n, ty) ==
 Init ==
   /\ now = 1
   /\ roots = InitTLDs
-  /\ ns = [n \in Names |-> IF n \in InitTLDs THEN [ex |-> TRUE, owner |-> Nil, admin |-> Nil, exp |-> 10 * YEAR] ELSE NoName]
+  /\ ns = [n \in Names |-> IF n \in InitTLDs THEN [ex |-> TRUE, owner |-> Nil, admin |-> Nil, exp |-> 10 * YEAR, ob |-> FALSE] ELSE NoName]
   /\ soa = [n \in Names |-> IF n \in InitTLDs THEN [ex |-> TRUE, mail |-> "ops", serial |-> 0, e |-> 10 * YEAR] ELSE NoSoa]
   /\ supply = 0
   /\ bal = [o \in Owners |-> 0]
@@ -403,7 +406,7 @@ ApiModel(D) ==
 (* API answers observed after the step (api).                              *)
 (***************************************************************************)
 GInit ==
-  [reg |-> [n \in Names |-> IF n \in InitTLDs THEN [ex |-> TRUE, owner |-> Nil, admin |-> Nil, exp |-> 10 * YEAR] ELSE NoName],
+  [reg |-> [n \in Names |-> IF n \in InitTLDs THEN [ex |-> TRUE, owner |-> Nil, admin |-> Nil, exp |-> 10 * YEAR, ob |-> FALSE] ELSE NoName],
    rec |-> [k \in RecKeys |-> <<>>]]
 
 Ok(e)     == e.res = "HALT"
@@ -413,13 +416,13 @@ GKey(G, t, e) == <<GTok(G, t, e.n), e.n, e.ty>>
 GNext(G, e, t) ==
   IF ~Ok(e) THEN G
   ELSE CASE e.act = "registerTLD" ->
-              [G EXCEPT !.reg[e.n] = [ex |-> TRUE, owner |-> Nil, admin |-> Nil, exp |-> t + e.x]]
+              [G EXCEPT !.reg[e.n] = [ex |-> TRUE, owner |-> Nil, admin |-> Nil, exp |-> t + e.x, ob |-> FALSE]]
          [] e.act = "register" /\ e.ret = "true" ->
-              [G EXCEPT !.reg[e.n] = [ex |-> TRUE, owner |-> e.o, admin |-> Nil, exp |-> t + e.x]]
-         [] e.act = "transfer" /\ e.ret = "true" /\ (G.reg[e.n].owner # e.o \/ e.d = "buf") ->
+              [G EXCEPT !.reg[e.n] = [ex |-> TRUE, owner |-> e.o, admin |-> Nil, exp |-> t + e.x, ob |-> FALSE]]
+         [] e.act = "transfer" /\ e.ret = "true" /\ (G.reg[e.n].owner # e.o \/ e.d = "buf" \/ G.reg[e.n].ob) ->
               \* (a self-transfer whose receiver arrives as a Buffer is handled as a transfer to somebody else:
               \*  the statement's "transfer clears the admin" holds literally, see Transfer)
-              [G EXCEPT !.reg[e.n].owner = e.o, !.reg[e.n].admin = Nil]
+              [G EXCEPT !.reg[e.n].owner = e.o, !.reg[e.n].admin = Nil, !.reg[e.n].ob = (e.d = "buf")]
          [] e.act = "renew" ->
               [G EXCEPT !.reg[e.n].exp = @ + e.x * YEAR]
          [] e.act = "setAdmin" ->
